@@ -584,7 +584,10 @@ func (f *FuncCall) Token() *lexer.Token {
 
 // Type returns the return type of the called function.
 func (f *FuncCall) Type() *Type {
-	return f.FuncDef.ReturnType
+	if f.FuncDef.ReturnType == nil {
+		return nil
+	}
+	return fixedType(f.FuncDef.ReturnType) // a result is not a literal, see Type.Fixed
 }
 
 // UnaryExpression is an AST node that represents a unary expression,
@@ -610,6 +613,12 @@ func (u *UnaryExpression) String() string {
 
 // Type returns the type of the UnaryExpression, such as bool or num.
 func (u *UnaryExpression) Type() *Type {
+	switch u.Op {
+	case OP_MINUS:
+		return NUM_TYPE
+	case OP_BANG:
+		return BOOL_TYPE
+	}
 	return u.Right.Type()
 }
 
@@ -648,6 +657,12 @@ func (b *BinaryExpression) Type() *Type {
 func (b *BinaryExpression) infer() {
 	if b.T == EMPTY_ARRAY {
 		b.T = &Type{Name: ARRAY, Sub: ANY_TYPE, Fixed: true}
+	}
+}
+
+func (s *SliceExpression) infer() {
+	if s.T == EMPTY_ARRAY {
+		s.T = &Type{Name: ARRAY, Sub: ANY_TYPE, Fixed: true}
 	}
 }
 
@@ -1140,11 +1155,17 @@ func wrapAny(val Node, targetType *Type) Node {
 			return v
 		case *BinaryExpression:
 			v.Left = wrapAny(v.Left, targetType)
-			v.Right = wrapAny(v.Right, targetType)
+			if v.Op != OP_ASTERISK { // the right operand of a repetition is the count
+				v.Right = wrapAny(v.Right, targetType)
+			}
 			v.T = targetType
 			return v
 		case *GroupExpression:
 			v.Expr = wrapAny(v.Expr, targetType)
+			return v
+		case *SliceExpression:
+			v.Left = wrapAny(v.Left, targetType)
+			v.T = targetType
 			return v
 		}
 		panic(fmt.Sprintf("internal error: untyped array: %s incompatible types: target %v, value %v", val.Token().Location(), targetType, valType))
@@ -1161,6 +1182,10 @@ func wrapAny(val Node, targetType *Type) Node {
 		panic(fmt.Sprintf("internal error: untyped map: %s incompatible types: target %v, value %v", val.Token().Location(), targetType, valType))
 	}
 
+	if group, ok := val.(*GroupExpression); ok {
+		group.Expr = wrapAny(group.Expr, targetType)
+		return group
+	}
 	arrayLit, ok := val.(*ArrayLiteral)
 	if targetType.Name == ARRAY && ok {
 		for i, el := range arrayLit.Elements {
